@@ -7,7 +7,7 @@ M=$1; shift
 export CARGO_NET_OFFLINE=true CARGO_PROFILE_TEST_DEBUG=0 CARGO_PROFILE_DEV_DEBUG=0
 cd /tmp/mv || exit 2
 git checkout -q -- . ; rm -f tests/mutation_demo_*.rs
-git checkout -q --detach "$(git -C /repo rev-parse HEAD)"
+git checkout -q --detach "${MV_BASE:-$(git -C /repo rev-parse HEAD)}"
 git apply "$M/patch.diff" || { echo "RESULT patch-does-not-apply"; exit 2; }
 DEMO=$(ls "$M"/demo*.rs 2>/dev/null | head -1)
 NAME=mutation_demo_x
